@@ -377,7 +377,6 @@ def main(out):
     parts.append(translate_function(gh, "discard_before", "discard_before", known, False, ret_sort='u'))
     known["discard_before"] = (['u', 'u', 'u'], 'u')
     parts.append(translate_function(gh, "discard_after", "discard_after", known, False, ret_sort='u'))
-    parts += translate_vardecl(gh, "k", "usage_k", [("b", 'u'), ("log2r", 'u')], known)
     for hdr, gname in (("mpi_plain", "sub_calls_plain"), ("mpi_vegas", "sub_calls_vegas"),
                        ("mpi_multi_channel", "sub_calls_multi_channel")):
         docs = run_clang("hep/mc/%s.hpp" % hdr, "sub_calls", mpi)
